@@ -319,9 +319,17 @@ def norm_params(sig):
     return re.sub(r"\s+", "", out.replace("λ", "lambda")).rstrip(",")
 
 
-def preprocess(template: Path, checks):
-    """expand //@INJECT ... //@ENDINJECT blocks into the //@HOOK points of //@INCLUDEd files"""
-    raw = template.read_text().splitlines()
+def preprocess(template: Path, checks, defs=None):
+    """expand //@INJECT ... //@ENDINJECT blocks into the //@HOOK points of //@INCLUDEd files;
+    `defs` instantiates {{NAME}} placeholders of a unit template (word-type instantiation)"""
+    txt = template.read_text()
+    for k, v in (defs or {}).items():
+        txt = txt.replace("{{" + k + "}}", v)
+    if "{{" in txt and "}}" in txt:
+        m = re.search(r"\{\{(\w+)\}\}", txt)
+        if m:
+            raise ExtractError(f"unit template parameter {m.group(1)} not instantiated")
+    raw = txt.splitlines()
     inject, lines, i = {}, [], 0
     while i < len(raw):
         l = raw[i]
@@ -380,9 +388,9 @@ def rewrite_map_err(body, log):
         log.append(f"R6 `{recv_n}.map_err({m.group(1)})?` -> match/return desugaring")
 
 
-def build_unit(repo: Path, template: Path, checks=False):
+def build_unit(repo: Path, template: Path, checks=False, defs=None):
     """Return (unit_text, info) with info = {functions: [...], rewrites: [...]}"""
-    lines = preprocess(template, checks)
+    lines = preprocess(template, checks, defs)
     out = []
     info = dict(functions=[], rewrites=[], template=str(template))
     i = 0
@@ -406,6 +414,25 @@ def build_unit(repo: Path, template: Path, checks=False):
             info["functions"].append(dict(file=kv["file"], item=kv["item"], name="(item)", sha256=hashlib.sha256(item_text.encode()).hexdigest()[:16]))
             i += 1
             continue
+        if ln.strip().startswith("//@FIELDS"):
+            # a restated struct declaration: every listed `field: type` must be in the real declaration
+            kv = dict(re.findall(r"(\w+)=((?:/[^/]*/)|\S+)", re.split(r"<<|\[\[", ln.split("//@FIELDS", 1)[1], 1)[0]))
+            src_path = repo / kv["file"]
+            if not src_path.exists():
+                raise ExtractError(f"lost anchor: {kv['file']} does not exist")
+            src = src_path.read_text()
+            m = re.search(kv["item"][1:-1], src, re.M)
+            if not m:
+                raise ExtractError(f"lost anchor: item {kv['item']} not found in {kv['file']}")
+            ob = src.index("{", m.end() - 1)
+            item_text = src[m.start():_match_brace(src, ob) + 1]
+            flds = re.findall(r"\[\[(.*?)\]\]", ln) or re.findall(r"<<(.*?)>>", ln)
+            for fld in flds:
+                if not re.search(r"\b" + re.escape(fld) + r"\s*,", item_text):
+                    raise ExtractError(f"lost anchor: field `{fld}` not in {kv['item']} of {kv['file']}")
+            info["rewrites"].append(f"{kv['file']}: struct declaration restated with the fields " + ", ".join(flds) + " (checked against the real declaration; other generic parameters and marker fields dropped)")
+            i += 1
+            continue
         if not ln.strip().startswith("//@FN"):
             out.append(ln)
             i += 1
@@ -417,7 +444,7 @@ def build_unit(repo: Path, template: Path, checks=False):
             item = item[1:-1]
         name = kv["name"]
         occ = int(kv.get("occurrence", "1"))
-        sig, specs, loops, proofs, repls, prologue, loopends, repls_re = None, [], {}, [], [], [], {}, []
+        sig, specs, loops, proofs, repls, prologue, loopends, repls_re, insts, epilogue = None, [], {}, [], [], [], {}, [], [], []
         i += 1
         while not lines[i].strip().startswith("//@END"):
             l = lines[i].strip()
@@ -437,15 +464,21 @@ def build_unit(repo: Path, template: Path, checks=False):
                 loops.setdefault(int(m.group(1)), []).append(m.group(2))
             elif l.startswith("//@PROLOGUE"):
                 prologue.append(l[len("//@PROLOGUE"):].strip())
+            elif l.startswith("//@EPILOGUE"):
+                epilogue.append(l[len("//@EPILOGUE"):].strip())
             elif l.startswith("//@PROOF"):
-                m = re.match(r"//@PROOF\s+after=<<(.*?)>>\s+(.*)", l)
-                proofs.append((m.group(1), m.group(2)))
+                m = re.match(r"//@PROOF\s+after=(?:<<(.*?)>>|\[\[(.*?)\]\])(?:#(\d+))?\s+(.*)", l)
+                proofs.append((m.group(1) if m.group(1) is not None else m.group(2), m.group(4), int(m.group(3) or 1)))
             elif l.startswith("//@REPLACE_RE"):
                 m = re.match(r"//@REPLACE_RE\s+<<(.*?)>>\s*=>\s*<<(.*?)>>", l)
                 repls_re.append((m.group(1), m.group(2)))
             elif l.startswith("//@LOOPEND"):
                 m = re.match(r"//@LOOPEND\s+(\d+)\s+(.*)", l)
                 loopends.setdefault(int(m.group(1)), []).append(m.group(2))
+            elif l.startswith("//@INST"):
+                # word-type instantiation: applied in order, where present (absence is not an error)
+                m = re.match(r"//@INST\s+<<(.*?)>>\s*=>\s*<<(.*?)>>", l)
+                insts.append((m.group(1), m.group(2)))
             elif l.startswith("//@REPLACE"):
                 m = re.match(r"//@REPLACE\s+<<(.*?)>>\s*=>\s*<<(.*?)>>", l)
                 repls.append((m.group(1), m.group(2)))
@@ -462,6 +495,10 @@ def build_unit(repo: Path, template: Path, checks=False):
             raise ExtractError(f"signature drift for {file}::{name}: real `{norm_params(real_sig)}` vs contract `{norm_params(sig)}`")
         log = []
         body = global_rewrites(body, checks, log)
+        for old, new in insts:
+            if old in body:
+                body = body.replace(old, new)
+                log.append(f"instantiation: `{old}` -> `{new}`")
         for old, new in repls:
             if old not in body:
                 raise ExtractError(f"lost anchor: REPLACE text `{old}` not in {file}::{name}")
@@ -489,10 +526,14 @@ def build_unit(repo: Path, template: Path, checks=False):
             _, ob = lp[k - 1]
             body = body[:ob] + "\n" + "\n".join("            " + c for c in loops[k]) + "\n        " + body[ob:]
         unannotated = len(lp) - len(loops)
-        for anchor, text in proofs:
-            idx = body.find(anchor)
+        for anchor, text, nth in proofs:
+            idx = -1
+            for _ in range(nth):
+                idx = body.find(anchor, idx + 1)
+                if idx < 0:
+                    break
             if idx < 0:
-                raise ExtractError(f"lost anchor: PROOF anchor `{anchor}` not in {file}::{name}")
+                raise ExtractError(f"lost anchor: PROOF anchor `{anchor}` (occurrence {nth}) not in {file}::{name}")
             # end of the statement containing the anchor
             depth, k = 0, idx
             while True:
@@ -505,6 +546,13 @@ def build_unit(repo: Path, template: Path, checks=False):
                     break
                 k += 1
             body = body[:k + 1] + "\n        " + text + body[k + 1:]
+        if epilogue:
+            # before the tail expression of the function (its last non-blank line; no anchor in the text needed)
+            bl = body.rstrip().split("\n")
+            tail = bl[-1]
+            if tail.rstrip().endswith(";") or tail.rstrip().endswith("}"):
+                raise ExtractError(f"lost anchor: {file}::{name} does not end with a one-line tail expression (EPILOGUE)")
+            body = "\n".join(bl[:-1]) + "\n        " + "\n        ".join(epilogue) + "\n" + tail + "\n    "
         out.append(f"// ---- extracted from {file} :: {name} (sha256 of source text {hashlib.sha256(body.encode()).hexdigest()[:12]}) ----")
         out.append(sig)
         out.extend(specs)
@@ -557,14 +605,18 @@ def run_units(repo, verif, obls):
     try:
         for (unit, feats), items in by_unit.items():
             checks = "checks" in feats
-            tmpl = verif / "verus" / "units" / f"{unit}.rs"
+            base, defs = unit, None
+            if "@" in unit:
+                base, ds = unit.split("@", 1)
+                defs = dict(kv.split("=", 1) for kv in ds.split(";"))
+            tmpl = verif / "verus" / "units" / f"{base}.rs"
             try:
-                text, info = build_unit(repo, tmpl, checks)
+                text, info = build_unit(repo, tmpl, checks, defs)
             except ExtractError as e:
                 for o, fn in items:
                     results[o.id] = dict(status="undecided", reason=f"extraction: {e}")
                 continue
-            up = scratch / f"{unit}{'_checks' if checks else ''}.rs"
+            up = scratch / (re.sub(r"[^A-Za-z0-9_]", "_", unit) + ("_checks" if checks else "") + ".rs")
             up.write_text(text)
             keep = os.environ.get("VERIF_KEEP_UNITS")
             if keep:
@@ -630,7 +682,9 @@ if __name__ == "__main__":
     import sys
     repo = Path(os.environ.get("VERIF_REPO", "/repo"))
     t = Path(sys.argv[1])
-    text, info = build_unit(repo, t, checks="--checks" in sys.argv)
+    defs = dict(a[2:].split("=", 1) for a in sys.argv if a.startswith("-D"))
+    sys.argv = [a for a in sys.argv if not a.startswith("-D")]
+    text, info = build_unit(repo, t, checks="--checks" in sys.argv, defs=defs or None)
     outp = Path(sys.argv[2]) if len(sys.argv) > 2 and not sys.argv[2].startswith("--") else Path("/tmp/scratch") / t.name
     outp.parent.mkdir(parents=True, exist_ok=True)
     outp.write_text(text)
